@@ -18,6 +18,7 @@ import (
 	"strings"
 	"time"
 
+	"github.com/idena-network/idena-go/blockchain/attachments"
 	"github.com/idena-network/idena-go/blockchain/types"
 	"github.com/idena-network/idena-go/common"
 	"github.com/idena-network/idena-go/config"
@@ -279,6 +280,12 @@ func c04run(c *hx.Ctx, cs c04case) error {
 			if tx.Type == types.DeployContractTx || tx.Type == types.CallContractTx || tx.Type == types.TerminateContractTx {
 				if rc := n.Chain.GetReceipt(tx.Hash()); rc != nil {
 					c.Hit(fmt.Sprintf("contract-receipt:type-%d:success=%v", tx.Type, rc.Success))
+					if a := attachments.ParseCallContractAttachment(tx); tx.Type == types.CallContractTx && a != nil {
+						c.Hit(fmt.Sprintf("contract-call:%s:success=%v", a.Method, rc.Success))
+					}
+					if a := attachments.ParseDeployContractAttachment(tx); tx.Type == types.DeployContractTx && a != nil {
+						c.Hit(fmt.Sprintf("contract-deploy:code-%x:wasm=%v:success=%v", a.CodeHash.Bytes()[31:], len(a.Code) > 0, rc.Success))
+					}
 				}
 			}
 		}
